@@ -111,6 +111,8 @@ type BindRec struct {
 	Infos  []constant.IPInfo
 	Step   int
 	Anno   string
+	// CloudIdx is the number of provider calls made before this binding.
+	CloudIdx int
 }
 
 // CloudCall is one provider call.
@@ -155,6 +157,11 @@ type World struct {
 	faultCount int
 	// DeletedFIPs logs store deletes/re-keys for culprit attribution: "step op ip oldkey->newkey by thread"
 	StoreLog []string
+	// AssignOwner / CloudSeen are scratch state of the C10 oracle (owner key of an IP when it was assigned).
+	AssignOwner map[string]string
+	CloudSeen   int
+	// Writers is the set of threads that performed store writes, bindings or provider calls.
+	Writers map[string]bool
 
 	kube   *kubeClient
 	galaxy *galaxyClient
@@ -677,6 +684,13 @@ func (w *World) apiCall(verb, res, name string) error {
 	return nil
 }
 
+func (w *World) cloudLen() int {
+	if w.Cloud == nil {
+		return 0
+	}
+	return len(w.Cloud.Calls)
+}
+
 // ResetFault restarts the per-operation API call counter used by FaultAt.
 func (w *World) ResetFault(at int) { w.FaultAt, w.faultCount = at, 0 }
 
@@ -688,6 +702,15 @@ func (w *World) who() string {
 		return t.Name
 	}
 	return "main"
+}
+
+func (w *World) wrote() {
+	if t := coop.Running(); t != nil && coop.IsManaged() {
+		if w.Writers == nil {
+			w.Writers = map[string]bool{}
+		}
+		w.Writers[t.Name] = true
+	}
 }
 
 type kubeClient struct {
@@ -750,6 +773,7 @@ func (p *podClient) Bind(ctx gocontext.Context, b *corev1.Binding, _ metav1.Crea
 		return apierrors.NewConflict(podGR, b.Name, fmt.Errorf("pod is already assigned to node %q", pod.Spec.NodeName))
 	}
 	old := pod.DeepCopy()
+	w.wrote()
 	pod.Spec.NodeName = b.Target.Name
 	if pod.Annotations == nil {
 		pod.Annotations = map[string]string{}
@@ -757,7 +781,7 @@ func (p *podClient) Bind(ctx gocontext.Context, b *corev1.Binding, _ metav1.Crea
 	for k, v := range b.Annotations {
 		pod.Annotations[k] = v
 	}
-	rec := BindRec{PodKey: p.ns + "/" + b.Name, UID: string(pod.UID), Node: b.Target.Name, Step: w.Step, Anno: b.Annotations[constant.ExtendedCNIArgsAnnotation]}
+	rec := BindRec{PodKey: p.ns + "/" + b.Name, UID: string(pod.UID), Node: b.Target.Name, Step: w.Step, CloudIdx: w.cloudLen(), Anno: b.Annotations[constant.ExtendedCNIArgsAnnotation]}
 	if a, err := constant.UnmarshalCniArgs(rec.Anno); err == nil && a != nil {
 		for _, info := range a.Common.IPInfos {
 			if info.IP != nil {
@@ -840,6 +864,7 @@ func (c *fipClient) Create(ctx gocontext.Context, f *v1alpha1.FloatingIP, _ meta
 	if _, ok := c.w.FIPs[f.Name]; ok {
 		return nil, apierrors.NewAlreadyExists(fipGR, f.Name)
 	}
+	c.w.wrote()
 	c.w.FIPs[f.Name] = f.DeepCopy()
 	c.w.StoreLog = append(c.w.StoreLog, fmt.Sprintf("create %s ->%s by %s", f.Name, f.Spec.Key, c.w.who()))
 	return f.DeepCopy(), nil
@@ -853,6 +878,7 @@ func (c *fipClient) Update(ctx gocontext.Context, f *v1alpha1.FloatingIP, _ meta
 	if !ok {
 		return nil, apierrors.NewNotFound(fipGR, f.Name)
 	}
+	c.w.wrote()
 	c.w.StoreLog = append(c.w.StoreLog, fmt.Sprintf("update %s %s->%s by %s", f.Name, old.Spec.Key, f.Spec.Key, c.w.who()))
 	c.w.FIPs[f.Name] = f.DeepCopy()
 	return f.DeepCopy(), nil
@@ -866,6 +892,7 @@ func (c *fipClient) Delete(ctx gocontext.Context, name string, _ metav1.DeleteOp
 	if !ok {
 		return apierrors.NewNotFound(fipGR, name)
 	}
+	c.w.wrote()
 	c.w.StoreLog = append(c.w.StoreLog, fmt.Sprintf("delete %s %s-> by %s", name, old.Spec.Key, c.w.who()))
 	delete(c.w.FIPs, name)
 	if _, lab := old.Labels[constant.ReserveFIPLabel]; lab {
@@ -1002,6 +1029,7 @@ type RecProvider struct {
 }
 
 func (r *RecProvider) fail() bool {
+	r.w.wrote()
 	r.n++
 	if r.FailAt > 0 && r.n == r.FailAt {
 		return true
